@@ -50,8 +50,20 @@ def strategy(tier):
         st.tuples(st.just('minimize')),
         st.tuples(st.just('foreign'), st.integers(0, 5), d),
     ).map(list)
+    free = st.lists(op, min_size=3, max_size=n)
+    # the savepoint clause of the statement: the same blob saved by two savepoints, roll back to one of them
+    wr = st.tuples(st.just('write'), i, st.sampled_from(['w', 'a', 'r+']), d).map(list)
+    phased = st.tuples(st.lists(op, max_size=3), i, d, d, st.sampled_from(['w', 'a']), st.integers(0, 1), st.booleans(),
+                       st.lists(op, max_size=5)).map(
+        lambda t: t[0] + [['write', t[1], 'w', t[2]], ['savepoint'], ['write', t[1], t[4], t[3]], ['savepoint'], ['rollback', t[5]]]
+        + ([['minimize']] if t[6] else []) + [['read', t[1]], ['commit']] + t[7])
+    # the undo and pack clauses: rewrite, undo (and redo), pack at a time around them
+    phased2 = st.tuples(st.lists(op, max_size=2), i, d, st.booleans(), d, st.integers(0, 1), st.booleans(), st.integers(0, 8),
+                        st.lists(op, max_size=4)).map(
+        lambda t: t[0] + [['write', t[1], 'w', t[2]], ['commit']] + ([['write', t[1], 'a', t[4]], ['commit']] if t[3] else [])
+        + [['undo', t[5]]] + ([['undo', 0]] if t[6] else []) + [['pack', t[7]], ['observe', True], ['read', t[1]]] + t[8])
     return st.fixed_dictionaries({'kind': st.sampled_from(['fs', 'fs', 'bmap']),
-                                  'ops': st.lists(op, min_size=3, max_size=n)})
+                                  'ops': st.one_of(free, free.map(list), free.map(tuple).map(list), phased, phased2)})
 
 
 def list_blob_files(blob_dir):
@@ -329,8 +341,9 @@ class BlobWorld:
             # the connection forgets every object it can (unchanged or saved by a savepoint): blobs written
             # before a savepoint are then known to the connection by their records only
             self.conn.cacheMinimize()
-            import gc
-            gc.collect()            # (ghosts stay in the cache while anything, e.g. a closed blob file, refers to them)
+            if self.sps:
+                import gc
+                gc.collect()        # (ghosts stay in the cache while anything, e.g. a closed blob file, refers to them)
             if self.sps:
                 self.labels.add('cache-minimized-after-savepoint')
 
